@@ -8,23 +8,27 @@ import time
 
 from lib.verif import *
 from props import punish_common as pc
+from props import hint_sort as hs
 
 WARM = pc.WARM
 
 SPEC = {
     "C04": {
         "module": "LV.Channel.Props_C04",
-        "targets": ["theories/Channel/Props_C04.vo"] + pc.TARGETS_COMMON,
+        "targets": ["theories/Channel/Props_C04.vo"] + pc.TARGETS_COMMON + hs.TARGETS,
         "theorems": ["C04_wrapper_is_conservative", "C04_wrapper_covers_every_state",
                      "C04_log_matches_revoked_descriptor", "C04_every_output_claimed",
-                     "C04_every_revoked_state_punishable"],
+                     "C04_every_revoked_state_punishable",
+                     "C04_hint_roundtrip", "C04_hint_fields", "C04_hint_rejects_large",
+                     "C04_hint_injective"],
         "mism": "mismatches04",
     },
     "C05": {
         "module": "LV.Channel.Props_C05",
-        "targets": ["theories/Channel/Props_C05.vo"] + pc.TARGETS_COMMON,
+        "targets": ["theories/Channel/Props_C05.vo"] + pc.TARGETS_COMMON + hs.TARGETS,
         "theorems": ["C05_claimable_value", "C05_claimable_value_reachable",
-                     "C05_claimable_value_after_resync", "C05_own_outputs_not_dust"],
+                     "C05_claimable_value_after_resync", "C05_own_outputs_not_dust",
+                     "C05_commit_sort_canonical", "C05_htlc_sig_index"],
         "mism": "mismatches05",
     },
 }
@@ -44,6 +48,20 @@ TRUSTED = [
     "scripts are the real ones",
     "height-0 commitments are the test fixture's (dummy signature, fee not deducted in the "
     "transaction): amounts of height 0 are not compared",
+    "state hint (Channel/StateHint.v): the obfuscator is a 48-bit value (6 bytes read big-endian); its "
+    "derivation from the payment base points (DeriveStateHintObfuscator, sha256) is not modelled - the "
+    "harness feeds the real obfuscator of every channel into the model",
+    "commitment sort / HTLC signature index (Channel/CommitSort.v): outputs are (satoshi value, pkScript "
+    "BYTES, cltv) compared exactly as sortableCommitOutputSlice.Less; how an HTLC's pkScript is derived "
+    "from (hash, expiry, direction, keys) is an INPUT of the model. C05_htlc_sig_index assumes "
+    "(CommitSort.pk_facts): equal HTLC pkScripts imply equal payment hashes, an offered-HTLC script "
+    "never equals a received-HTLC script (collision resistance of the script hash / BOLT-3 templates: "
+    "Script/ layer), and that both parties hold the same two per-direction HTLC lists in the same order "
+    "(update-log order; C01 cut-level agreement; measured per run: per_direction_order_differs = 0); "
+    "sort.Sort / slices.SortFunc (unstable) are modelled by insertion sorts - justified by "
+    "C05_commit_sort_canonical (the order is total on outputs) and by the injectivity clause of "
+    "C05_htlc_sig_index (output indexes of jobs are pairwise distinct); signature validity itself is "
+    "decided by the real code (ReceiveNewCommitment) and by the btcd engine on every second-level tx",
 ]
 
 
@@ -125,6 +143,95 @@ def run_prop(ctx, pid):
         "(live object and a second object restored from the same database)"]
 
 
+def _extra_stage(ctx, pid, rows, info, cov):
+    """C04: state hint; C05: commitment sort and HTLC signature index.  Implementation-side
+    predicates, then correspondence with Channel/StateHint.v / Channel/CommitSort.v."""
+    uid = ctx.uid("x%d" % os.getpid())
+    if pid == "C04":
+        probe = info.get("hint_probe")
+        nbad = 0
+        pf = hs.pred_hint_probe(probe)
+        if probe is None:
+            pf = ["the harness emitted no state-hint probe row"]
+        if pf:
+            nbad += 1
+            ctx.violation("impl_violates_predicate", "C04_hint_roundtrip/C04_hint_fields/C04_hint_rejects_large",
+                          {"fails": pf[:8], "n_fails": len(pf)}, signature="c04 hint probe " + pf[0][:120])
+        for row in rows:
+            fails = hs.pred_hint_row(row)
+            if fails:
+                nbad += 1
+                if nbad <= 3:
+                    ctx.violation("impl_violates_predicate", "C04_hint_roundtrip/C04_hint_fields",
+                                  {"case": row.get("case"), "chan_type": row.get("chan_type"),
+                                   "fails": fails[:8], "script": pc.script_of(row)},
+                                  signature="c04 hint " + fails[0][:120])
+        terms, metas = hs.hint_terms(rows, probe)
+        ok, bad, logs = coq_mismatches(uid, hs.IMPORTS, terms, mism="mismatches_hint",
+                                       shard=max(1, (len(terms) + 3) // 4), timeout=1200)
+        if not ok:
+            ctx.violation("correspondence_mismatch", "Channel.HintSortExec (model evaluation failed)",
+                          {"logs": [l[-2500:] for l in logs[:3]]}, signature="hint-model-eval",
+                          failing_input=False)
+        for ci, idxs in bad[:3]:
+            ctx.violation("correspondence_mismatch", "Channel.HintSortExec.mismatches_hint",
+                          {"entries": [metas[ci][i] for i in idxs[:6] if i < len(metas[ci])],
+                           "format": "(obfuscator, height, #inputs, code, sequence, locktime, GetStateNumHint)",
+                           "meaning": "SetStateNumHint / GetStateNumHint of the real code differ from "
+                                      "StateHint.set_hint_tx / get_hint"},
+                          signature="c04 hint mismatch")
+        n_ent = sum(len(m) for m in metas)
+        cov["state_hint"] = {"commitments": n_ent - len(metas[-1]), "probes": len(metas[-1]),
+                             "probe_outcomes": _count(p[3] for p in (probe or [])),
+                             "predicate_failing": nbad, "correspondence_mismatches": len(bad),
+                             "max_height": max([h for r in rows for (_, h, *_x) in hs.hint_entries(r)] or [0])}
+    else:
+        nbad = 0
+        for row in rows:
+            fails = hs.pred_sort_row(row)
+            if fails:
+                nbad += 1
+                if nbad <= 3:
+                    ctx.violation("impl_violates_predicate", "C05_htlc_sig_index",
+                                  {"case": row.get("case"), "seed": row.get("seed"),
+                                   "chan_type": row.get("chan_type"), "fails": fails[:8],
+                                   "n_fails": len(fails), "script": pc.script_of(row)},
+                                  signature="c05 sigindex " + fails[0][:120])
+        terms, metas = hs.sort_terms(rows)
+        ok, bad, logs = coq_mismatches(uid, hs.IMPORTS, terms, mism="mismatches_sort",
+                                       shard=max(1, (len(terms) + NCPU - 1) // NCPU), timeout=2400)
+        if not ok:
+            ctx.violation("correspondence_mismatch", "Channel.HintSortExec (model evaluation failed)",
+                          {"logs": [l[-2500:] for l in logs[:3]]}, signature="sort-model-eval",
+                          failing_input=False)
+        for ci, codes in bad[:3]:
+            row = rows[ci]
+            what = []
+            for cde in codes[:6]:
+                base, i = (cde // 200) * 200, cde % 200
+                m = metas[ci][i] if i < len(metas[ci]) else None
+                what.append("%s @ %s" % (hs.SORT_CODES.get(base, "code %d" % cde), m))
+            ctx.violation("correspondence_mismatch", "Channel.HintSortExec.mismatches_sort",
+                          {"case": row.get("case"), "chan_type": row.get("chan_type"), "codes": codes,
+                           "meaning": what, "script": pc.script_of(row)},
+                          signature="c05 sigindex mismatch codes=%s" % sorted({c // 200 * 200 for c in codes[:6]}))
+        h = hs.sort_histograms(rows)
+        h.update({"predicate_failing_cases": nbad, "correspondence_mismatches": len(bad)})
+        cov["htlc_sig_index"] = h
+    for f in __import__("glob").glob(os.path.join(BUILD, "coq_eval", "cases_%s_*.v" % uid)):
+        try:
+            os.remove(f)
+        except OSError:
+            pass
+
+
+def _count(it):
+    d = {}
+    for x in it:
+        d[str(x)] = d.get(str(x), 0) + 1
+    return d
+
+
 def _history_stage(ctx, pid, sp, pr, cov):
     t1 = time.time()
     henv = {}
@@ -172,6 +279,8 @@ def _history_stage(ctx, pid, sp, pr, cov):
                            "replay": "VERIF_CHAN_SCRIPT=<file with this script> ./check %s" % pid,
                            "script": pc.script_of(row)},
                           signature="%s %s" % (pid.lower(), fails[0][:140]))
+    # ---- follow-up layers: state hint (C04) / commit sort + HTLC signature index (C05) ----
+    _extra_stage(ctx, pid, rows, info, cov)
     t3 = time.time()
     # ---- correspondence ---------------------------------------------------
     terms, metas, reasons = [], [], {}
